@@ -235,14 +235,14 @@ def go_setstring0(s):
 
 
 def i_big_eq(ex, st, args, ctx):
-    a, b = args[0], args[1]
+    a, b = rbig(st, args[0]), rbig(st, args[1])
     if a.neg != b.neg:
         return z3.simplify(z3.And(a.v == 0, b.v == 0))
     return z3.simplify(a.v == b.v)
 
 
 def i_big_lt(ex, st, args, ctx):
-    a, b = args[0], args[1]
+    a, b = rbig(st, args[0]), rbig(st, args[1])
     if a.neg and not b.neg:
         return z3.simplify(z3.Or(a.v != 0, b.v != 0))
     if b.neg and not a.neg:
@@ -251,7 +251,7 @@ def i_big_lt(ex, st, args, ctx):
 
 
 def i_be32(ex, st, args, ctx):
-    return new_bytes(ex, st, byte_cells_of_bv(args[0].v, 32), 32)
+    return new_bytes(ex, st, byte_cells_of_bv(rbig(st, args[0]).v, 32), 32)
 
 
 def i_bytes_eq(ex, st, args, ctx):
@@ -292,7 +292,19 @@ def bigptr(ex, st, p):
     v = ex.load(st, p)
     if not isinstance(v, Big):
         raise Unsupported('expected *big.Int, got %r' % (v,))
-    return v
+    return rbig(st, v)
+
+
+def big_assign(ex, st, p, nb):
+    """z.Set*/SetBytes/...: when the receiver already has a backing array the digits are written into it (every shallow copy of the
+    receiver's old value sees them: same-size values always fit); otherwise a new array is allocated"""
+    old = ex.load(st, p)
+    nb = rbig(st, nb)
+    if isinstance(old, Big) and old.cell is not None:
+        used('math/big: a mutator writes into the receiver\'s existing backing array, which shallow copies of the big.Int share')
+        st.heap[('bigcell', old.cell)] = (nb.v, nb.neg)
+        return
+    ex.store(st, p, Big(nb.v, nb.neg))
 
 
 def big_Bytes(ex, st, args, ctx):
@@ -332,7 +344,7 @@ def bytes_value(ex, st, s):
 
 def big_SetBytes(ex, st, args, ctx):
     used('(*math/big.Int).SetBytes: big-endian value of at most 32 bytes')
-    ex.store(st, args[0], Big(bytes_value(ex, st, args[1])))
+    big_assign(ex, st, args[0], Big(bytes_value(ex, st, args[1])))
     return args[0]
 
 
@@ -353,7 +365,7 @@ def big_FillBytes(ex, st, args, ctx):
 
 
 def big_SetUint64(ex, st, args, ctx):
-    ex.store(st, args[0], Big(z3.simplify(z3.ZeroExt(BIG - 64, args[1]))))
+    big_assign(ex, st, args[0], Big(z3.simplify(z3.ZeroExt(BIG - 64, args[1]))))
     return args[0]
 
 
@@ -370,7 +382,7 @@ def _signed64(ex, st, x, mk):
 
 def big_SetInt64(ex, st, args, ctx):
     def mk(s2, b):
-        ex.store(s2, args[0], b)
+        big_assign(ex, s2, args[0], b)
         return args[0]
     return _signed64(ex, st, args[1], mk)
 
@@ -380,7 +392,7 @@ def big_NewInt(ex, st, args, ctx):
 
 
 def big_Set(ex, st, args, ctx):
-    ex.store(st, args[0], bigptr(ex, st, args[1]))
+    big_assign(ex, st, args[0], bigptr(ex, st, args[1]))
     return args[0]
 
 
@@ -442,7 +454,7 @@ def big_SetString(ex, st, args, ctx):
         if len(ps) == 2 and ps[0][0] == 'lit' and ps[1][0] == 'num':
             sign, (_, prefix, b, v) = ps[0][1], ps[1]
             if sign in ('-', '+') and ((base == 0 and ((prefix == '0x' and b == 16) or (prefix == '' and b == 10))) or (base == b and prefix == '')):
-                ex.store(st, args[0], Big(v, neg=(sign == '-')))
+                big_assign(ex, st, args[0], Big(v, neg=(sign == '-')))
                 return (args[0], z3.BoolVal(True))
             if any(ch in '+-' for ch in sign[1:]) or (sign[:1] in '+-' and len(sign) > 1 and prefix == '' ) or sign.endswith(('-', '+')) and len(sign) > 1:
                 return (NIL, z3.BoolVal(False))       # a sign in the middle of the text is not a number
@@ -450,7 +462,7 @@ def big_SetString(ex, st, args, ctx):
     if s.num is not None:
         prefix, b, v = s.num
         if (base == 0 and ((prefix == '0x' and b == 16) or (prefix == '' and b == 10) or (prefix == '0b' and b == 2))) or (base == b and prefix == ''):
-            ex.store(st, args[0], Big(v))
+            big_assign(ex, st, args[0], Big(v))
             return (args[0], z3.BoolVal(True))
         # digits of one base re-read in another: an uninterpreted reinterpretation (not the identity)
         f = uf(ex, 'reinterpret_%s%d_as_%d' % (prefix, b, base), z3.BitVecSort(BIG), z3.BitVecSort(BIG))
@@ -462,7 +474,7 @@ def big_SetString(ex, st, args, ctx):
         val = go_setstring0(zs.as_string())
         if val is None or val < 0 or val >= (1 << BIG):
             return (NIL, z3.BoolVal(False))
-        ex.store(st, args[0], Big(bvval(val, BIG)))
+        big_assign(ex, st, args[0], Big(bvval(val, BIG), cell=-1 if val == 0 else 'auto'))
         return (args[0], z3.BoolVal(True))
     isnum = uf(ex, 'isNumber_base%d' % base, z3.StringSort(), z3.BoolSort())
     numval = uf(ex, 'numval_base%d' % base, z3.StringSort(), z3.BitVecSort(BIG))
@@ -471,7 +483,7 @@ def big_SetString(ex, st, args, ctx):
 
 
 def _setstr_ok(ex, st, p, v):
-    ex.store(st, p, Big(v))
+    big_assign(ex, st, p, Big(v))
     return (p, z3.BoolVal(True))
 
 
@@ -1114,7 +1126,7 @@ def default_prefix_stubs():
 
 def i_same_mod_r(ex, st, args, ctx):
     R = bvval(BN254_R, BIG)
-    return z3.simplify(z3.URem(args[0].v, R) == z3.URem(args[1].v, R))
+    return z3.simplify(z3.URem(rbig(st, args[0]).v, R) == z3.URem(rbig(st, args[1]).v, R))
 
 
 INTRINSICS.update({'verifSameModR': i_same_mod_r})
@@ -1552,12 +1564,12 @@ def big_Int64(ex, st, args, ctx):
 
 def big_Neg(ex, st, args, ctx):
     X = bigptr(ex, st, args[1])
-    ex.store(st, args[0], Big(X.v, neg=not X.neg))
+    big_assign(ex, st, args[0], Big(X.v, neg=not X.neg))
     return args[0]
 
 
 def big_Abs(ex, st, args, ctx):
-    ex.store(st, args[0], Big(bigptr(ex, st, args[1]).v))
+    big_assign(ex, st, args[0], Big(bigptr(ex, st, args[1]).v))
     return args[0]
 
 
